@@ -38,6 +38,12 @@ func BaseDocs() []*Doc {
 		Q(F("named", F("name"), F("i"), F("kid", F("id"))), F("nameds", F("name")), F("a", F("named", F("name")), F("mnamed", F("i")))),
 		// B10 per-type fields and covariant field types behind an interface-typed list (abstract dispatch: reflection only)
 		Q(F("nameds", F("name"), F("buddy", F("__typename"), F("name"), In("A", F("onlyA")), In("B", F("onlyB")))), F("as", F("onlyA"), F("buddy", F("onlyA"), F("buddy", F("id")))), F("b", F("onlyB"), F("buddy", F("onlyB")))),
+		// B11 lists below merged objects and merged lists: every occurrence contributes its sub-selections to every element
+		{Ops: []*Op{{Type: "query", Anon: true, Sels: []*Sel{F("a", F("kids", F("id"))), F("a", F("kids", F("s"), F("kid", F("id")))), In("", F("a", F("kids", F("i")))),
+			F("as", F("kids", F("id"))), F("as", F("kids", F("s")), F("id")), Sp("FQ")}}},
+			Frags: []*Frag{{Name: "FQ", Cond: "Query", Sels: []*Sel{F("a", F("kids", F("name")), F("peers", F("id"))), F("as", F("i"))}}}},
+		// B12 enum and string arguments that a reflected method takes as Go string / named string parameters
+		Q(F("paint").WithArgs(Arg{"c", EnumLit("RED")}, Arg{"t", "matt"}), F("a", Al("p", F("paint").WithArgs(Arg{"c", EnumLit("BLUE")})), Al("q", F("paint").WithArgs(Arg{"t", "gloss"})))),
 	}
 }
 
